@@ -1,4 +1,5 @@
 import WfModel.KeyedLock
+import WfModel.KeyedLockSpec
 import Driver.Util
 open KeyedLock Drv
 
@@ -6,6 +7,10 @@ open KeyedLock Drv
   `enter|k|a` `resume|k|a` `cancel|k|a` `exit|k|a`  → `<status> <state>`
   `live|k|a`                                        → `live=<0|1> measure=<n>`
   `reset`                                           → `reset`
+  `c25xabs|k`                                       → `abs <t> spec <t> drain=<n>`
+`<t>` is a state of the ticket-lock specification (`WfModel/KeyedLockSpec.lean`): `h=<a|->:q=<a/w,a/c,a/g,..>`;
+`abs` is the abstraction of the implementation model's slot for `k`, `spec` is the specification run on its own
+(every action op is also applied to it with `tstepD`), `drain` = holders + 2·waiters of the implementation model.
 `<state>` lists, for every key touched so far whose slot is not empty, in ascending key order,
 `k:refs=<n|->:L=<0|1|->:in=<a,..>:q=<a/P,a/W,a/C,a/X,..>` joined by `;` (or `empty`). -/
 namespace Drv.KeyedLock
@@ -13,6 +18,7 @@ namespace Drv.KeyedLock
 structure St where
   kl : KL := {}
   keys : List Nat := []
+  spec : Nat → TSt := fun _ => {}
 
 def insertKey (k : Nat) : List Nat → List Nat
   | [] => [k]
@@ -34,6 +40,16 @@ def showState (s : St) : String :=
   let body := if parts.isEmpty then "empty" else ";".intercalate parts
   if s.kl.main then "MAIN " ++ body else body
 
+def showTW : TW → String
+  | .waiting => "w" | .cancelled => "c" | .grantCancelled => "g"
+
+def showT (t : TSt) : String :=
+  let h := match t.holder with | none => "-" | some a => toString a
+  s!"h={h}:q={",".intercalate (t.queue.map fun (w : Nat × TW) => s!"{w.1}/{showTW w.2}")}"
+
+def drainOf (st : KeySt) : Nat :=
+  st.inside.length + 2 * (match st.lock with | none => 0 | some l => l.waiters.length)
+
 def showErr : Err → String
   | .disabled => "disabled"
   | .keyError => "error:keyError"
@@ -52,6 +68,10 @@ def act? (name : String) (a : Nat) : Option KAct :=
 def step (s : St) (line : String) : St × String :=
   match line.splitOn "|" with
   | ["reset"] => ({}, "reset")
+  | ["c25xabs", ks] =>
+    match parseNat? ks with
+    | some k => (s, s!"abs {showT (absK (s.kl.slot k))} spec {showT (s.spec k)} drain={drainOf (s.kl.slot k)}")
+    | none => (s, "bad-op")
   | ["live", ks, as] =>
     match parseNat? ks, parseNat? as with
     | some k, some a =>
@@ -64,7 +84,9 @@ def step (s : St) (line : String) : St × String :=
       match act? name a with
       | none => (s, "bad-op")
       | some x =>
-        let s1 : St := { s with keys := insertKey k s.keys }
+        let sp := s.spec
+        let s1 : St := { s with keys := insertKey k s.keys,
+                                spec := fun j => if j = k then tstepD (sp k) x else sp j }
         match _root_.KeyedLock.step s1.kl ⟨k, x⟩ with
         | .ok kl' => let s2 : St := { s1 with kl := kl' }; (s2, "ok " ++ showState s2)
         | .error e => (s1, showErr e ++ " " ++ showState s1)
